@@ -1203,3 +1203,191 @@ R("undelegate-success-flag", ["C12"],
 		return true, action.Response{Events: action.GetEvent(ud.Tags(), "undelegate_success")}
 	}
 	return helpers.LogAndReturnFalse(ctx.Logger, balance.ErrBalanceErrorAddFailed, ud.Tags(), err)"""))
+
+# ------------------------------------------------------------------ C02
+SEND = "action/transfer/send.go"
+M("revert-fix-undelegate-sign", "C02", "C02.signguard",
+  (NUND, """	if !ud.Amount.IsValid(ctx.Currencies) || ud.Amount.Currency != "OLT" {
+		return helpers.LogAndReturnFalse(ctx.Logger, action.ErrInvalidAmount, ud.Tags(), errors.New("invalid undelegate amount"))
+	}
+""", ""))
+M("revert-fix-reinvest-sign", "C02", "C02.signguard",
+  (NREI, """	if !invest.Amount.IsValid(ctx.Currencies) || invest.Amount.Currency != "OLT" {
+		return helpers.LogAndReturnFalse(ctx.Logger, action.ErrInvalidAmount, invest.Tags(), errors.New("invalid reinvest amount"))
+	}
+""", ""))
+M("revert-fix-deleg-withdraw-sign", "C02", "C02.signguard",
+  ("action/network_delegation/withdraw_rewards.go", """	if !withdraw.Amount.IsValid(ctx.Currencies) || withdraw.Amount.Currency != "OLT" {
+		return helpers.LogAndReturnFalse(ctx.Logger, action.ErrInvalidAmount, withdraw.Tags(), errors.New("invalid withdraw amount"))
+	}
+""", ""))
+M("revert-fix-fund-sign", "C02", "C02.signguard",
+  ("action/governance/fundProposal.go", """	if !fundProposal.FundValue.IsValid(ctx.Currencies) {
+		return helpers.LogAndReturnFalse(ctx.Logger, action.ErrInvalidAmount, fundProposal.Tags(), errors.New("invalid fund value"))
+	}
+""", ""))
+M("revert-fix-withdrawfunds-sign", "C02", "C02.signguard",
+  ("action/governance/withdrawFunds.go", """	if !withdrawProposal.WithdrawValue.IsValid(ctx.Currencies) {""", """	if false {"""))
+M("revert-fix-reward-withdraw-sign", "C02", "C02.signguard",
+  ("action/rewards/withdraw.go", """	if !withdraw.WithdrawAmount.IsValid(ctx.Currencies) {
+		return helpers.LogAndReturnFalse(ctx.Logger, action.ErrInvalidAmount, withdraw.Tags(), errors.New("invalid withdraw amount"))
+	}
+""", ""))
+M("revert-fix-bid-sign", "C02", "C02.signguard",
+  ("external_apps/bid/bid_action/create_bid.go", """	if !createBid.Amount.IsValid(ctx.Currencies) {
+		return helpers.LogAndReturnFalse(ctx.Logger, action.ErrInvalidAmount, createBid.Tags(), errors.New("invalid bid amount"))
+	}
+""", ""))
+M("send-amount-unchecked", "C02", "C02.signguard",
+  (SEND, """	if !send.Amount.IsValid(ctx.Currencies) {
+		log := fmt.Sprint("amount is invalid", send.Amount, ctx.Currencies)
+		return false, action.Response{Log: log}
+	}
+""", ""),
+  (SEND, """	if !send.Amount.IsValid(ctx.Currencies) {
+		return false, errors.Wrap(action.ErrInvalidAmount, send.Amount.String())
+	}
+""", ""))
+M("send-validity-of-other-value", "C02", "C02.signguard",
+  (SEND, """	if !send.Amount.IsValid(ctx.Currencies) {
+		log := fmt.Sprint("amount is invalid", send.Amount, ctx.Currencies)""", """	if !(action.Amount{Currency: send.Amount.Currency, Value: *balance.NewAmount(0)}).IsValid(ctx.Currencies) {
+		log := fmt.Sprint("amount is invalid", send.Amount, ctx.Currencies)"""),
+  (SEND, """	if !send.Amount.IsValid(ctx.Currencies) {
+		return false, errors.Wrap(action.ErrInvalidAmount, send.Amount.String())
+	}
+""", ""),
+  (SEND, """import (""", """import (
+	"github.com/Oneledger/protocol/data/balance"
+"""))
+M("unstake-zero-check-inverted", "C02", "C02.signguard",
+  ("action/staking/unstake.go", """	if coin.LessThanEqualCoin(coin.Currency.NewCoinFromInt(0)) {
+		return false, action.ErrInvalidAmount
+	}""", """	if coin.Currency.NewCoinFromInt(0).LessThanEqualCoin(coin) && coin.Amount == nil {
+		return false, action.ErrInvalidAmount
+	}"""))
+M("create-proposal-lower-bound-from-message", "C02", "C02.signguard",
+  ("action/governance/createProposal.go", """	coinInit := coin.Currency.NewCoinFromAmount(*options.InitialFunding)""",
+   """	coinInit := coin.Currency.NewCoinFromAmount(createProposal.InitialFunding.Value)"""))
+M("coin-minus-always-succeeds", "C02", "C02.minus",
+  ("data/balance/coin.go", """	if result.Amount.BigInt().Cmp(big.NewInt(0)) == -1 {
+		return result, ErrInsufficientBalance
+	}
+	return result, nil""", """	if result.Amount.BigInt().Cmp(big.NewInt(0)) == -1 {
+		logger.Debug("negative balance", result)
+	}
+	return result, nil"""))
+M("amount-minus-sign-test-flipped", "C02", "C02.minus",
+  ("data/balance/amount.go", """	if base.Cmp(big.NewInt(0)) == -1 {
+		return NewAmountFromBigInt(base), ErrInsufficientBalance
+	}""", """	if base.Cmp(big.NewInt(0)) == 1 {
+		return NewAmountFromBigInt(base), ErrInsufficientBalance
+	}"""))
+M("balance-minus-ignores-error", "C02", "C02.minus",
+  ("data/balance/balance_store.go", """	newCoin, err := base.Minus(coin)
+	if err != nil {
+		return errors.Wrapf(err, "minus from address: %s, balance: %s, coin: %s", addr.String(), base.String(), coin.String())
+	}
+
+	return st.set(key, *newCoin.Amount)""", """	newCoin, err := base.Minus(coin)
+	if err != nil {
+		logger.Error("minus from address", addr.String(), err)
+	}
+
+	return st.set(key, *newCoin.Amount)"""))
+M("fundstore-deduct-writes-before-check", "C02", "C02.minus",
+  ("data/governance/proposal_fund_store.go", """	result, err := amt.Minus(*amount)
+	if err != nil {
+		return errors.Wrap(err, errorGettingRecord)
+	}
+
+	err = pf.set(key, *result)
+	if err != nil {
+		return err
+	}
+""", """	result, minusErr := amt.Minus(*amount)
+	err = pf.set(key, *result)
+	if err != nil {
+		return err
+	}
+	if minusErr != nil {
+		return errors.Wrap(minusErr, errorGettingRecord)
+	}
+"""))
+M("send-credit-before-debit", "C02", "C02.pairing",
+  (SEND, """	err = balances.MinusFromAddress(send.From.Bytes(), coin)
+	if err != nil {
+		log := fmt.Sprint("error debiting balance in send transaction ", send.From, "err", err)
+		return false, action.Response{Log: log}
+	}
+
+	err = balances.AddToAddress(send.To.Bytes(), coin)
+	if err != nil {
+		log := fmt.Sprint("error crediting balance in send transaction ", send.From, "err", err)
+		return false, action.Response{Log: log}
+	}
+""", """	err = balances.AddToAddress(send.To.Bytes(), coin)
+	if err != nil {
+		log := fmt.Sprint("error crediting balance in send transaction ", send.From, "err", err)
+		return false, action.Response{Log: log}
+	}
+
+	err = balances.MinusFromAddress(send.From.Bytes(), coin)
+	if err != nil {
+		log := fmt.Sprint("error debiting balance in send transaction ", send.From, "err", err)
+		return true, action.Response{Log: log}
+	}
+"""))
+M("withdrawfunds-credit-despite-deduct-error", "C02", "C02.pairing",
+  ("action/governance/withdrawFunds.go", """		ctx.Logger.Error("Failed to deduct funds from proposal:", withdrawProposal.ProposalID)
+		result := action.Response{
+			Events: action.GetEvent(withdrawProposal.Tags(), "withdraw_proposal_deduct_fund_failed"),
+			Log:    governance.ErrDeductFunding.Wrap(err).Marshal(),
+		}
+		return false, result""", """		ctx.Logger.Error("Failed to deduct funds from proposal:", withdrawProposal.ProposalID)"""))
+M("validator-reward-rounded-up", "C02", "C02.floor",
+  (CTRL, """	reward := balance.NewAmountFromBigInt(big.NewInt(0).Div(numerator, totalPower))
+	return reward""", """	q := big.NewInt(0).Div(numerator, totalPower)
+	reward := balance.NewAmountFromBigInt(q.Add(q, big.NewInt(1)))
+	return reward"""))
+M("fee-share-float-rounding", "C02", "C02.floor",
+  (VSET, """				feeShare := total.MultiplyInt64(queued.Priority()).DivideInt64(vs.totalPower)
+""", """				feeShare := total.MultiplyInt64(queued.Priority()).DivideInt64(vs.totalPower)
+				if f, _ := new(big.Float).Quo(new(big.Float).SetInt(total.MultiplyInt64(queued.Priority()).Amount.BigInt()), big.NewFloat(float64(vs.totalPower))).Int(nil); f != nil {
+					feeShare.Amount = balance.NewAmountFromBigInt(f.Add(f, big.NewInt(0)))
+				}
+"""))
+R("send-validation-in-helper", ["C02"],
+  (SEND, """	if !send.Amount.IsValid(ctx.Currencies) {
+		log := fmt.Sprint("amount is invalid", send.Amount, ctx.Currencies)
+		return false, action.Response{Log: log}
+	}
+""", """	if err := checkSendAmount(ctx, send.Amount); err != nil {
+		return false, action.Response{Log: err.Error()}
+	}
+"""),
+  (SEND, """func runTx(ctx *action.Context, tx action.RawTx) (bool, action.Response) {""", """func checkSendAmount(ctx *action.Context, amt action.Amount) error {
+	if amt.IsValid(ctx.Currencies) {
+		return nil
+	}
+	return errors.New("amount is invalid " + amt.String())
+}
+
+func runTx(ctx *action.Context, tx action.RawTx) (bool, action.Response) {"""))
+R("undelegate-sign-via-coin", ["C02", "C12"],
+  (NUND, """	if !ud.Amount.IsValid(ctx.Currencies) || ud.Amount.Currency != "OLT" {
+		return helpers.LogAndReturnFalse(ctx.Logger, action.ErrInvalidAmount, ud.Tags(), errors.New("invalid undelegate amount"))
+	}
+""", """	if c := ud.Amount.ToCoin(ctx.Currencies); !c.IsValid() || c.Currency.Name != "OLT" {
+		return helpers.LogAndReturnFalse(ctx.Logger, action.ErrInvalidAmount, ud.Tags(), errors.New("invalid undelegate amount"))
+	}
+"""))
+R("fund-sign-via-bigint", ["C02"],
+  ("action/governance/fundProposal.go", """	if !fundProposal.FundValue.IsValid(ctx.Currencies) {""", """	if fundProposal.FundValue.Value.BigInt().Sign() < 0 {"""))
+R("coin-minus-cmp-form", ["C02"],
+  ("data/balance/coin.go", """	if result.Amount.BigInt().Cmp(big.NewInt(0)) == -1 {
+		return result, ErrInsufficientBalance
+	}
+	return result, nil""", """	if result.Amount.BigInt().Cmp(big.NewInt(0)) >= 0 {
+		return result, nil
+	}
+	return result, ErrInsufficientBalance"""))
